@@ -1,6 +1,6 @@
 /-
-  C06 — comments: text, VML shapes and the positional join of shapes to comments, at the level of
-  element trees.
+  C06 — comments: text, VML shapes and the join of shapes to comments (by the cell a note shape names),
+  at the level of element trees.
 
   Sources (the worktree as it stands):
     src/writer/xlsx/comment.rs          the `<comments>` part: authors table, `<commentList>`
@@ -19,9 +19,13 @@
   `C03_text`, restated as `C06_comment_text_channel`).  `<x/>` and `<x></x>` are the same tree.
 
   ORDER.  Both writers run `for comment in worksheet.get_comments()` over the same `ThinVec<Comment>`:
-  insertion order, not sorted, the same in both parts (`writeCommentList`, `shapeElems`).  The VML reader
-  pairs by position: a running `comment_index`, advanced for every `v:shape` whose client data has an
-  `x:Column` element, `get_comments_mut().get_mut(comment_index).map(set_shape)` (`joinGo`).
+  insertion order, not sorted, the same in both parts (`writeCommentList`, `shapeElems`).  The VML writer
+  sets `x:Row` / `x:Column` of every comment's shape from the comment's own coordinate (fix 26940198,
+  `Comment.writtenShape`).  The VML reader (fix b524a98a, `joinGo`) keeps a running `comment_index`, advanced
+  for every `v:shape` whose client data has an `x:Column` element, and gives such a shape to the comment on
+  the cell its `x:Row` / `x:Column` name: the comment at `comment_index` when that one is on the cell, else the
+  first comment on the cell, else (no `x:Row`, or no comment on the cell) the comment at `comment_index`
+  (`targetIndex`).  `joinGoPos` is the loop as it was before that fix (position only).
 
   Choices, each following the Rust:
   * a comment's text is a `RichText` = a list of runs `(text, Option<Font>)`; `set_text_string` makes ONE
@@ -342,10 +346,16 @@ def shapeElem (id : Nat) (s : Shape) : Node :=
   .elem nShape (⟨"id".toList, shapeId id⟩ :: (match s.style with | some t => [⟨"style".toList, t⟩] | none => []))
     [clientData s]
 
-/-- `for comment in worksheet.get_comments() { comment.get_shape().write_to(.., &id, ..); id += 1 }` -/
+/-- the shape `vml_drawing::write` writes for a comment: a clone of the comment's shape whose `x:Row` /
+    `x:Column` are set from the comment's own coordinate, zero-based (`saturating_sub(1)`), whatever the
+    shape held (nothing, a holder without a value, another cell) -/
+def Comment.writtenShape (c : Comment) : Shape :=
+  { c.shape with row := some (some (c.cell.row - 1)), col := some (some (c.cell.col - 1)) }
+
+/-- `for comment in worksheet.get_comments() { …; shape.write_to(.., &id, ..); id += 1 }` -/
 def shapeElems : Nat → List Comment → List Node
   | _, [] => []
-  | id, c :: r => shapeElem id c.shape :: shapeElems (id + 1) r
+  | id, c :: r => shapeElem id c.writtenShape :: shapeElems (id + 1) r
 
 def el (n : String) (as : List (String × String)) (ks : List Node) : Node :=
   .elem n.toList (as.map fun p => ⟨p.1.toList, p.2.toList⟩) ks
@@ -474,13 +484,48 @@ def setShapeAt : List Comment → Nat → Shape → List Comment
   | c :: r, 0, s => { c with shape := s } :: r
   | c :: r, i + 1, s => c :: setShapeAt r i s
 
+/-- the cell a note shape names: `x:Column` / `x:Row` are zero-based; the getters answer 0 for a holder
+    without a value; `none` when one of the two elements is missing -/
+def Shape.cell? (s : Shape) : Option (Nat × Nat) :=
+  match s.col, s.row with
+  | some c, some r => some (c.getD 0 + 1, r.getD 0 + 1)
+  | _, _ => none
+
+/-- (column, row) of the comment's cell -/
+def Comment.pos (c : Comment) : Nat × Nat := (c.cell.col, c.cell.row)
+
+/-- the closure `is_target`: `col_num.checked_sub(1) == Some(x:Column) && row_num.checked_sub(1) == Some(x:Row)`,
+    false for a shape without `x:Row` -/
+def Shape.names (s : Shape) (k : Nat × Nat) : Bool := decide (s.cell? = some k)
+
+/-- `Iterator::position` -/
+def positionOf {α : Type} (p : α → Bool) : List α → Option Nat
+  | [] => none
+  | a :: r => if p a then some 0 else (positionOf p r).map (· + 1)
+
+/-- the index the shape goes to: `comment_index` when the comment there is on the cell the shape names,
+    else `comments.iter().position(is_target).unwrap_or(comment_index)` -/
+def targetIndex (cells : List (Nat × Nat)) (i : Nat) (s : Shape) : Nat :=
+  match cells[i]? with
+  | some k => if s.names k then i else (positionOf s.names cells).getD i
+  | none => (positionOf s.names cells).getD i
+
 /-- the loop of `vml_drawing::read` over the shapes: a shape WITH an `x:Column` goes to the comment at
-    `comment_index`, which then advances; a shape without one belongs to the OLE objects -/
+    `targetIndex` and `comment_index` advances; a shape without one belongs to the OLE objects -/
 def joinGo : Nat → List Comment → List Shape → List Comment
   | _, cs, [] => cs
-  | i, cs, s :: r => if s.col.isSome then joinGo (i + 1) (setShapeAt cs i s) r else joinGo i cs r
+  | i, cs, s :: r =>
+    if s.col.isSome then joinGo (i + 1) (setShapeAt cs (targetIndex (cs.map Comment.pos) i s) s) r else joinGo i cs r
 
-def joinByPosition (cs : List Comment) (ss : List Shape) : List Comment := joinGo 0 cs ss
+/-- `vml_drawing::read`: the join of the shapes of the VML part to the comments of the comments part -/
+def joinShapes (cs : List Comment) (ss : List Shape) : List Comment := joinGo 0 cs ss
+
+/-- the loop as it was before fix b524a98a: position only -/
+def joinGoPos : Nat → List Comment → List Shape → List Comment
+  | _, cs, [] => cs
+  | i, cs, s :: r => if s.col.isSome then joinGoPos (i + 1) (setShapeAt cs i s) r else joinGoPos i cs r
+
+def joinByPosition (cs : List Comment) (ss : List Shape) : List Comment := joinGoPos 0 cs ss
 
 /-- save and reload of the comments of one sheet (`tbl`: the authors table the writer happened to build) -/
 def reload (tbl : List Text) (cs : List Comment) : Option (List Comment) :=
@@ -488,19 +533,22 @@ def reload (tbl : List Text) (cs : List Comment) : Option (List Comment) :=
   | none => none
   | some n =>
     match readComments n, readVml (writeVml cs) with
-    | some rc, some ss => some (joinByPosition rc ss)
+    | some rc, some ss => some (joinShapes rc ss)
     | _, _ => none
 
 /-! ## normal form and well-formedness -/
 
-/-- a row / column target whose holder has no value is written as `0` -/
+/-- a row / column target whose holder has no value is written as `0` (what a reader of the part sees for
+    a shape of a loaded file; the writer replaces both targets anyway) -/
 def normU32 : Option (Option Nat) → Option (Option Nat)
   | some none => some (some 0)
   | v => v
 
 def Shape.norm (s : Shape) : Shape := { s with row := normU32 s.row, col := normU32 s.col }
 
-def Comment.norm (c : Comment) : Comment := { c with shape := c.shape.norm }
+/-- what a comment comes back as: its shape names the comment's own cell (`Comment.writtenShape`), everything
+    else as it was -/
+def Comment.norm (c : Comment) : Comment := { c with shape := c.writtenShape }
 
 def u32Max : Nat := 4294967296
 
@@ -512,9 +560,9 @@ def optU32WF : Option (Option Nat) → Prop
   | some (some n) => n < u32Max
   | _ => True
 
-/-- the Rust field types, and: the shape carries an `x:Column` (what `new_comment` and the reader set;
-    the VML reader recognises a comment's shape by it) -/
-def Shape.WF (s : Shape) : Prop := s.anchor.WF ∧ optU32WF s.row ∧ optU32WF s.col ∧ s.col.isSome = true
+/-- the Rust field types (`x:Row` / `x:Column` of the struct may be anything, also absent: the writer sets
+    them from the coordinate) -/
+def Shape.WF (s : Shape) : Prop := s.anchor.WF ∧ optU32WF s.row ∧ optU32WF s.col
 
 /-- run properties, when present, are an element called `rPr` -/
 def Run.WF (r : Run) : Prop :=
@@ -523,8 +571,10 @@ def Run.WF (r : Run) : Prop :=
   | some (.text _) => False
   | none => True
 
+/-- `1 ≤ row`: a cell (`Coord.WF` admits the row 0 of a column reference, which is no cell and which
+    `x:Row` cannot name) -/
 def Comment.WF (tbl : List Text) (c : Comment) : Prop :=
-  c.cell.WF ∧ c.author ∈ tbl ∧ (∀ r ∈ c.text, r.WF) ∧ c.shape.WF
+  c.cell.WF ∧ 1 ≤ c.cell.row ∧ c.author ∈ tbl ∧ (∀ r ∈ c.text, r.WF) ∧ c.shape.WF
 
 /-- the list of comments of a sheet and the authors table written for it -/
 def WF (tbl : List Text) (cs : List Comment) : Prop :=
@@ -541,27 +591,22 @@ instance (tbl : List Text) (cs : List Comment) : Decidable (WF tbl cs) := by unf
 /-- the comment on a cell: the first one in list order -/
 def lookup (cs : List Comment) (k : Coord) : Option Comment := cs.find? (fun c => c.cell = k)
 
-/-! ## loaded files: when is the positional join right -/
-
-/-- the cell a note shape names: `x:Column` / `x:Row` are zero-based -/
-def Shape.cell? (s : Shape) : Option (Nat × Nat) :=
-  match s.col, s.row with
-  | some c, some r => some (c.getD 0 + 1, r.getD 0 + 1)
-  | _, _ => none
+/-! ## loaded files -/
 
 /-- `validCommentParts`: the note shapes (those with an `x:Column`), in document order, name exactly the
     cells of the comments, in `commentList` order — shapes without `x:Column` (buttons, form controls,
-    pictures) may stand anywhere between them -/
+    pictures) may stand anywhere between them.  (What the library itself writes; Excel does not.) -/
 def validCommentParts (cs : List Comment) (ss : List Shape) : Prop :=
-  (ss.filter (·.col.isSome)).map Shape.cell? = cs.map fun c => some (c.cell.col, c.cell.row)
+  (ss.filter (·.col.isSome)).map Shape.cell? = cs.map fun c => some c.pos
 
 instance (cs : List Comment) (ss : List Shape) : Decidable (validCommentParts cs ss) := by
   unfold validCommentParts; infer_instance
 
-/-- the join a reader should make: each note shape goes to the comment on the cell it names -/
+/-- the join by cell, as a specification: each comment takes the first note shape that names its cell and
+    keeps the shape it has when there is none -/
 def joinByCell (cs : List Comment) (ss : List Shape) : List Comment :=
   cs.map fun c =>
-    match ss.find? (fun s => s.col.isSome && s.cell? = some (c.cell.col, c.cell.row)) with
+    match ss.find? (fun s => s.col.isSome && s.names c.pos) with
     | some s => { c with shape := s }
     | none => c
 
